@@ -145,6 +145,12 @@ func verifStub_PartsUnmarshal(ps *fmp4.Parts, byts []byte) error {
 }
 
 func verifStub_InitMarshal(in *fmp4.Init, w io.WriteSeeker) error {
+	for _, t := range in.Tracks {
+		// the real encoder parses the AV1 sequence header and fails on a truncated one
+		if c, ok := t.Codec.(*fmp4.CodecAV1); ok && len(c.SequenceHeader) < 8 {
+			return &verifBlobError{"unable to parse AV1 sequence header"}
+		}
+	}
 	cp := &fmp4.Init{}
 	for _, t := range in.Tracks {
 		ct := *t
